@@ -263,6 +263,18 @@ func (f *flow) cl(v ssa.Value, depth int, seen map[ssa.Value]bool) []leaf {
 					// element of a slice parameter (variadic forwarding)
 					return f.cl(p, depth+1, seen)
 				}
+				// element of a slice that a function of this module built and returned, or that was filled element by
+				// element here: what was stored into it (a slice value is classified by its elements)
+				switch sx := x.X.(type) {
+				case *ssa.MakeSlice:
+					return f.cl(sx, depth+1, seen)
+				case *ssa.Call:
+					if callee := sx.Common().StaticCallee(); callee != nil && callee.Pkg != nil && strings.HasPrefix(callee.Pkg.Pkg.Path(), modPath) && callee.Blocks != nil {
+						if _, isSlice := sx.Type().Underlying().(*types.Slice); isSlice {
+							return f.cl(sx, depth+1, seen)
+						}
+					}
+				}
 				return []leaf{{Kind: "DYN", Info: "element of " + shortVal(x.X), Pos: v.Pos()}}
 			case *ssa.Parameter, *ssa.FreeVar:
 				// *p where p is a pointer parameter (e.g. *string attribute values)
